@@ -19,6 +19,7 @@ import sys
 
 from . import core
 from . import c01_runner as RUN
+import numpy as np
 
 PROP = "C01"
 DRIVER = None
@@ -136,7 +137,7 @@ def gen_tables():
 
 OPS = ["shuffle_do", "do", "shuffle_inplace", "select_frac", "select_rich", "groupby", "create", "remove", "by_type", "np_rng",
        "cell_agents", "sort"]
-GRIDS = ["moore", "vn", "hex", "network", "single", "multi", "none"]
+GRIDS = ["moore", "vn", "hex", "network", "network_str", "single", "multi", "none"]
 FORMS = ["seed", "rng_int", "rng_seq", "rng_gen"]
 
 
@@ -195,6 +196,8 @@ def oracle(sc, obs):
             bad.append(f"global-np: configuration {k} disturbed numpy's global generator")
         if r["derived_bad"]:
             bad.append(f"derived: collections without the model's generator: {r['derived_bad']}")
+        if not r.get("same_obj_ok", True):
+            bad.append(f"same-seed-object: configuration {k}: two models built from the same SeedSequence object differ")
         if not r["reseed_ok"]:
             bad.append(f"reseed: configuration {k}: reset_randomizer()/reset_rng() did not replay the stream")
     return bad
@@ -220,16 +223,24 @@ def extra(ctx):
     from mesa.examples.basic.boltzmann_wealth_model.model import BoltzmannWealth
     from mesa.examples.basic.schelling.model import Schelling
 
-    jobs = [(BoltzmannWealth, {"n": 8, "width": 4, "height": 4, "seed": [3, 4]})]
+    jobs = [(BoltzmannWealth, {"n": 8, "width": 4, "height": 4, "seed": [3, 4]}),
+            (RUN.BatchProbeModel, {"n": 5, "rng": [np.random.SeedSequence(77)]})]
     if ctx.tier == "thorough":
         jobs.append((Schelling, {"height": 6, "width": 6, "density": 0.7, "seed": [11, 12, 13]}))
     n = 0
     for klass, params in jobs:
         rows = []
         for procs in (1, 2):
-            r = mesa.batch_run(klass, params, number_processes=procs, iterations=1, max_steps=4, data_collection_period=1,
+            r = mesa.batch_run(klass, params, number_processes=procs, iterations=2, max_steps=4, data_collection_period=1,
                                display_progress=False)
-            rows.append(sorted(json.dumps(x, sort_keys=True, default=str) for x in r))
+            rows.append(sorted(json.dumps({k: v for k, v in x.items() if k != "rng"}, sort_keys=True, default=str) for x in r))
+            # iterations of identical, identically seeded kwargs must coincide
+            def strip(x, it):
+                return sorted(json.dumps({k: v for k, v in y.items() if k not in ("RunId", "iteration", "rng")}, sort_keys=True, default=str)
+                              for y in x if y["iteration"] == it)
+            if len(list(params.get("seed", params.get("rng", [0])))) == 1 and strip(r, 0) != strip(r, 1):
+                ctx.violation("batch-iterations", {"kind": "impl-counterexample", "oracle_clause": ["batch-iterations: two iterations with the same seed object differ"],
+                                                   "model": klass.__name__, "procs": procs, "it0": strip(r, 0)[:4], "it1": strip(r, 1)[:4]})
         n += 1
         if rows[0] != rows[1]:
             ctx.violation("batch-procs", {"kind": "impl-counterexample", "oracle_clause": ["batch-procs: rows differ between number_processes=1 and 2"],
